@@ -31,9 +31,18 @@ func runR119(c *Ctx) {
 		out := []*ssa.Function{root}
 		seen := map[*ssa.Function]bool{root: true}
 		level := []*ssa.Function{root}
-		for d := 0; d < 3; d++ {
+		for d := 0; d < 4; d++ {
 			var next []*ssa.Function
 			for _, f := range level {
+				// function literals of f (local closures such as `merge := func(...)` may be called through a
+				// captured variable, which no static callee shows)
+				for _, an := range f.AnonFuncs {
+					if !seen[an] {
+						seen[an] = true
+						out = append(out, an)
+						next = append(next, an)
+					}
+				}
 				eachInstr(f, func(in ssa.Instruction) {
 					if call, ok := in.(*ssa.Call); ok {
 						if g := call.Call.StaticCallee(); g != nil && g.Pkg == root.Pkg && g.Blocks != nil && !seen[g] && g.Signature.Recv() == nil {
